@@ -1638,7 +1638,18 @@ func gen(seed uint64, n int, w io.Writer) {
 		tagPort := func() string {
 			return lib.Pick(r, []string{fmt.Sprintf("sport:%d", 2000+fl), fmt.Sprintf("cport:%d", 1000+fl), fmt.Sprintf("sport:%d", 1000+fl)})
 		}
-		switch r.Intn(6) {
+		switch r.Intn(7) {
+		case 6: // two tags with overlapping matches share a converter; one is detached / deleted / re-attached
+			// while an earlier converter job is still parked, so the common stream is only queued
+			fmt.Fprintf(w, "pcap q0.pcap 0:100:c:%s 1:101:c:%s 2:102:c:%s\nimport q0.pcap\nrel import\n", word, word, word)
+			fmt.Fprintf(w, "addtag tag/a red sport:2002\nrel tag\nupdconv tag/a conv1\n")
+			fl = r.Intn(2)
+			fmt.Fprintf(w, "addtag tag/b red sport:%d\nrel tag\naddtag tag/c red cport:%d\nrel tag\n", 2000+fl, 1000+fl)
+			fmt.Fprintf(w, "updconv tag/b conv1\nupdconv tag/c conv1\n")
+			fmt.Fprintf(w, "%s\n", lib.Pick(r, []string{"updconv tag/b -", "deltag tag/b", "updconv tag/c -", "updq tag/b sport:2009"}))
+			fmt.Fprintf(w, "rel convert\n")
+			g.tags["tag/a"], g.tags["tag/b"], g.tags["tag/c"] = &genTag{}, &genTag{}, &genTag{}
+			g.flows[0], g.flows[1], g.flows[2] = true, true, true
 		case 0: // a stream is created with swapped roles, tagged on its endpoints, then reset by an earlier capture
 			fmt.Fprintf(w, "pcap q0.pcap %d:900:s:%s %d:905:c:%s\nimport q0.pcap\nrel import\n", fl, word, fl, word)
 			fmt.Fprintf(w, "addtag tag/a red %s\nrel tag\n", tagPort())
